@@ -104,6 +104,38 @@ func runVortex(r *vlib.Run, g string) {
 				r.FailIn(g, key("accepts-forged-proof/false-claim-with-UAlpha-shifted-by-a-codeword"), name, "vortex Verify accepts a false claimed value when UAlpha is shifted by the same constant codeword ("+name+"): the opened columns are never compared with UAlpha", nil)
 			}
 		}
+		// targeted forgery against the (implicit) requirement that UAlpha has exactly the code-word length: keep the honest
+		// word in the first positions (the Reed-Solomon test and the column tests read those), append as many free
+		// positions, and choose the last one so that the interpolant over the doubled domain takes the value a FALSE
+		// claim needs at the evaluation point
+		{
+			ua0 := inst.in.Proof.UAlpha
+			N := len(ua0)
+			ext := make([]fext.E4, 2*N)
+			copy(ext, ua0)
+			unit := make([]fext.E4, 2*N)
+			unit[2*N-1].SetOne()
+			saveY := inst.in.ClaimedValues[0]
+			one := e4(1, 0, 0, 0)
+			inst.in.ClaimedValues[0].Add(&inst.in.ClaimedValues[0], &one)
+			target := vortex.EvalFextPolyHorner(inst.in.ClaimedValues, inst.in.Alpha)
+			e0, err0 := vortex.EvalFextPolyLagrange(ext, inst.in.EvaluationPoint)
+			e1, err1 := vortex.EvalFextPolyLagrange(unit, inst.in.EvaluationPoint)
+			if err0 == nil && err1 == nil && !e1.IsZero() {
+				var t fext.E4
+				t.Sub(&target, &e0).Div(&t, &e1)
+				ext[2*N-1] = t
+				inst.in.Proof.UAlpha = ext
+				var err error
+				pn := vlib.Guard(func() { err = inst.params.Verify(inst.in) })
+				n++
+				if pn == "" && err == nil {
+					r.FailIn(g, key("accepts-forged-proof/false-claim-with-UAlpha-of-double-length"), name, "vortex Verify accepts a false claimed value when UAlpha carries twice as many entries as a code word ("+name+"): only the first half is tested for code-word membership, all of it is interpolated", nil)
+				}
+				inst.in.Proof.UAlpha = ua0
+			}
+			inst.in.ClaimedValues[0] = saveY
+		}
 		// targeted forgery preserving all but the Reed-Solomon membership test, one per extension coordinate: perturb one
 		// coordinate of UAlpha at a position that is not opened and move the first claimed value by the induced change of
 		// UAlpha(x), so that the claim/combination check and all column checks still hold
